@@ -241,6 +241,24 @@ def run_native(group, h_name, module, vals, release):
     return failed, labels, out[-1500:]
 
 
+def prebuild_replay(group, release):
+    cfg = dict(config.GROUPS[group])
+    cfg["harness_names"] = {f: sorted(set(h["name"] for h in config.HARNESSES
+                                          if f.endswith("/" + h["module"].replace("::", "/") + ".rs") and config.GROUPS[h["group"]]["package"] == cfg["package"]))
+                            for f in cfg["harness"]}
+    info = overlay.build(group, cfg, "replay")
+    try:
+        env = _env()
+        env["RUSTFLAGS"] = "--cfg verif_replay"
+        cmd = ["cargo", "test", "--offline", "-p", cfg["package"], "--lib", "--no-run", "--target-dir", replay_target_dir(group)]
+        if release:
+            cmd.append("--release")
+        p = subprocess.run(cmd, cwd=info["root"], env=env, stdout=subprocess.PIPE, stderr=subprocess.STDOUT, text=True)
+    finally:
+        shutil.rmtree(info["root"], ignore_errors=True)
+    return p.returncode == 0
+
+
 def native_replay(rec, pid):
     """replay a Kani counterexample against the unshimmed code in dev and release profiles"""
     h = [x for x in config.HARNESSES if x["name"] == rec["harness"]][0]
